@@ -193,9 +193,20 @@ def relmax(X, Y):
 
 
 # ------------------------------------------------------ building my Coq files
+MY_DEPS = {
+    "Generated/ExpGramConstants.v": [],
+    "Model/ExpGram.v": ["Base/Field.v", "Base/Matrix.v", "Base/Solve.v", "Model/Gauss.v"],
+    "Run/ExpGramRun.v": ["Base/Field.v", "Base/Matrix.v", "Base/Solve.v", "Model/Gauss.v", "Model/Prior.v", "Run/Show.v",
+                         "Model/ExpGram.v", "Generated/ExpGramConstants.v"],
+    "Proofs/ExpGramProofs.v": ["Base/Field.v", "Base/Matrix.v", "Base/Solve.v", "Model/Gauss.v", "Model/Prior.v",
+                               "Proofs/GaussProofs.v", "Proofs/PriorProofs.v", "Model/ExpGram.v", "Generated/ExpGramConstants.v"],
+    "Proofs/ExpGramProps.v": ["Proofs/ExpGramProofs.v"],
+}
+
+
 def ensure_built(with_proofs=True):
-    """Regenerate ExpGramConstants.v from the source; compile my files when out of date (they are not in
-    _CoqProject until the maintainer appends them; once they are, this is a no-op after `make`)."""
+    """Regenerate ExpGramConstants.v from the source; compile my files when out of date with respect to their
+    source or to the compiled files they import (they are not in _CoqProject until the maintainer appends them)."""
     info = {"translate": "", "compiled": [], "errors": [], "assumptions": ""}
     try:
         changed = translate_expgram.write(os.path.join(lib.COQ, "Generated", "ExpGramConstants.v"))
@@ -203,24 +214,31 @@ def ensure_built(with_proofs=True):
     except translate_expgram.TranslateError as e:
         info["errors"].append(f"translator failed (fail-closed): {e}")
         return info
-    rebuilt = False
+
+    def mt(rel_v):
+        p_ = os.path.join(lib.COQ, rel_v + "o")
+        return os.path.getmtime(p_) if os.path.exists(p_) else None
+
     for rel in MY_V + (MY_PROOFS if with_proofs else []):
         v = os.path.join(lib.COQ, rel)
-        vo = v + "o"
         if not os.path.exists(v):
             if rel in MY_PROOFS:
                 continue
             info["errors"].append(f"{rel} missing")
             return info
         last = rel == MY_PROOFS[-1]
-        if not rebuilt and not last and os.path.exists(vo) and os.path.getmtime(vo) >= os.path.getmtime(v):
+        own = mt(rel)
+        deps = [mt(d) for d in MY_DEPS[rel]]
+        fresh = (own is not None and own >= os.path.getmtime(v) and all(d is not None and d <= own for d in deps))
+        if fresh and not last:
             continue
         rc, out = lib.sh(f"timeout 900 coqc -Q . PD {rel}", cwd=lib.COQ, timeout=960)
         info["compiled"].append(rel)
         if rc != 0:
             info["errors"].append(f"coqc {rel} failed: {out[-600:]}")
+            if rel in MY_PROOFS:
+                continue
             return info
-        rebuilt = True
         if last:
             info["assumptions"] = out
     return info
@@ -558,7 +576,13 @@ def gen_prior_case(rng, which, quick, zero_drift=False, small=False):
     else:
         c["W"] = [[[Fr(0) if zero_drift else Fr(rng.randint(-4, 4), 2) for _ in range(d)] for _ in range(d)]
                   for _ in range(q + 1)]
-    c["h"] = gen_h(rng)
+    for _ in range(200):
+        c["h"] = gen_h(rng)
+        z = math.sqrt(2 * (q + 1 - 0.5)) / float(c["length_scale"]) if which == "matern" else None
+        if ref.norm1(documented_drift(c, z)) * c["h"] <= 50:
+            break
+    else:
+        c["h"] = Fr(1, 2 ** 10)
     return c
 
 
@@ -680,7 +704,7 @@ def main():
     for which in ("ou", "matern", "exp"):
         for _ in range(1 if quick else 6):
             c = gen_prior_case(rng, which, quick, small=True)
-            c["h"] = Fr(rng.choice([1, 3, 5]), 2 ** rng.randint(0, 6))
+            c["h"] = Fr(rng.choice([1, 3, 5]), 2 ** rng.randint(3, 8))
             prior_model_idx.append(len(prior_cases))
             prior_cases.append(c)
 
